@@ -458,6 +458,27 @@ class Interp:
             if st.exc is not None:
                 e = st.exc.func if isinstance(st.exc, ast.Call) else st.exc
                 name = dotted_name(e) or "Exception"
+                # `raise helper(...)` / `raise exc_variable`: the exception is what the
+                # expression evaluates to, not the name written after `raise`
+                target = None
+                if isinstance(e, ast.Name) and e.id in fr.env:
+                    target = fr.env[e.id]
+                elif isinstance(e, (ast.Name, ast.Attribute)):
+                    try:
+                        target = self.eval(e, fr)
+                    except (AnalysisError, Raised):
+                        target = None
+                v = None
+                if isinstance(target, (FuncV, Closure, Partial)) and isinstance(st.exc, ast.Call):
+                    v = self.eval(st.exc, fr)
+                elif isinstance(target, Obj) and not isinstance(st.exc, ast.Call):
+                    v = target
+                if isinstance(v, Obj) and v.kind == "exception":
+                    name = v.cls.split(":")[-1]
+                elif isinstance(v, ClassV):
+                    name = v.fq.split(":")[-1]
+                elif v is not None:
+                    raise Raised("TypeError", st, fr.fi, "exceptions must derive from BaseException")
             raise Raised(name, st, fr.fi)
         if isinstance(st, ast.Pass):
             return
@@ -925,6 +946,9 @@ class Interp:
                 return ExtMod(full)
         if name in PY_BUILTINS:
             return Builtin(name)
+        import builtins as _b
+        if isinstance(getattr(_b, name, None), type) and issubclass(getattr(_b, name), BaseException):
+            return Builtin(name)  # a built-in exception class
         raise self.err(node, f"unbound name {name}")
 
     def eval_module_assign(self, mi, name, v, node):
@@ -1688,6 +1712,9 @@ class Interp:
 
     # -------------------------------------------------------------- builtins
     def call_builtin(self, name, args, kwargs, n, fr):
+        import builtins as _b
+        if isinstance(getattr(_b, name, None), type) and issubclass(getattr(_b, name), BaseException):
+            return Obj(f"builtins:{name}", f"<{name}>", {"args": tuple(args)}, kind="exception")
         if name == "len":
             v = args[0]
             if isinstance(v, Coll):
